@@ -409,6 +409,226 @@ def template_walk_rule(F, R):
     R.floor("C13.r", "child fields of template walkers", n, 20)
 
 
+def whole_use_rule(F, R):
+    from .c07 import _backward, _origins
+    R.rule("C13.m", "a pattern without a dotted tail matches only uses that it consumes entirely: in match_list_pattern every "
+                    "path from the entry to `return true` passes either the Some edge of a test of the rest pattern (the tail "
+                    "is then matched against it) or the true edge of an emptiness test (is_empty / len) of the part of the "
+                    "use that lies behind the proper patterns (a sub-slice `list[n..]` / `list.get(n..)` of the input). nc: "
+                    "otherwise `(x y . z)` matches the pattern `(a b)` with z silently dropped, and a use that should be a "
+                    "syntax error expands")
+    fn = F.one(r"parser::expander::match_list_pattern$")
+    maps = _backward(fn)
+    true_blocks = [i for i, b in enumerate(fn.blocks) if not b["c"]
+                   and any(e[0] == "kv" and e[1] == "_0" and e[2] == "const:1" for e in b["e"])]
+    if not true_blocks:
+        raise CheckError("anchor lost: match_list_pattern has no `true` return")
+    # the rest pattern: the Option built in the Rest arm of the match on the last pattern
+    rest_locals = set()
+    for b in fn.blocks:
+        for e in b["e"]:
+            if e[0] == "mv" and re.search(r" as Rest\.\d", e[2]) and not b["c"]:
+                rest_locals.add(e[1].split(".")[0])
+    if not rest_locals:
+        raise CheckError("anchor lost: match_list_pattern no longer splits a Rest pattern off the pattern list")
+    # everything the rest option flows into (field-sensitive: a tuple it is packed in is tracked by that field only)
+    def _hits(src):
+        for t in lib.TOK.findall(lib._norm(src)):
+            parts = t.split(".")
+            if any(".".join(parts[:k]) in rest_locals for k in range(1, len(parts) + 1)):
+                return True
+        return False
+    grew = True
+    while grew:
+        grew = False
+        for b in fn.blocks:
+            for e in b["e"]:
+                if e[0] == "mv" and e[1] not in rest_locals and not e[1].startswith("_0") and _hits(e[2]):
+                    rest_locals.add(e[1])
+                    grew = True
+    tails = set()
+    for i, b in fn.calls():
+        if re.search(r"\{impl Index<I> for \[T\]\}::index$|\{impl \[T\]\}::get$", b["callee"]) and \
+                any("RangeFrom" in t for t in b["targs"]) and "_2" in _origins(fn, re.match(r"_\d+", b["args"][0]).group(0), maps):
+            tails.add((b.get("dest") or "").split(".")[0])
+    avoid = set()
+    n_rest = n_empty = 0
+    for sb, blk in enumerate(fn.blocks):
+        if blk["c"] or blk["k"] != "switch":
+            continue
+        loc = re.match(r"_\d+", blk.get("place", "").strip("()*"))
+        if not loc:
+            continue
+        org_full = _origins(fn, loc.group(0), maps, depth=14) | {loc.group(0)}
+        org = {o.split(".")[0] for o in org_full}
+        if blk["on"] == "enum:Option" and any(_hits(o) for o in org_full):
+            for v, t in blk["targets"]:
+                if v == "Some":
+                    avoid.add(t)
+                    n_rest += 1
+            if not any(v == "Some" for v, _ in blk["targets"]) and any(v == "None" for v, _ in blk["targets"]):
+                avoid.add(blk["otherwise"])
+                n_rest += 1
+        elif blk["on"] == "bool":
+            for ci, cb in fn.calls():
+                if re.search(r"\{impl \[T\]\}::(is_empty|len)$", cb["callee"]) and (cb.get("dest") or "").split(".")[0] in org:
+                    ao = {o.split(".")[0] for o in _origins(fn, re.match(r"_\d+", cb["args"][0]).group(0), maps, depth=14)}
+                    if ao & tails:
+                        # the edge on which the tail is empty
+                        empty_edge = blk["otherwise"] if cb["callee"].endswith("is_empty") else None
+                        if empty_edge is None:
+                            continue
+                        avoid.add(empty_edge)
+                        n_empty += 1
+    reach = fn.reachable_from([0], avoid=avoid)
+    bad = [t for t in true_blocks if t in reach]
+    R.inst("C13.m", "match_list_pattern / `true` only after the rest pattern took the tail or the tail was found empty",
+           not bad and n_rest > 0,
+           "match_list_pattern can return true on a path that neither hands the forms behind the proper patterns to a rest "
+           "pattern nor finds them empty (%d tests of the rest pattern, %d emptiness tests of the tail found): a use with "
+           "more forms than the pattern — in particular the tail of an improper use — matches and the surplus is dropped" % (
+               n_rest, n_empty), fn.loc(fn.blocks[bad[0]].get("line") if bad else None),
+           sample={"rest_tests": n_rest, "tail_emptiness_tests": n_empty})
+
+
+def ellipsis_count_rule(F, R):
+    from .c07 import _backward, _origins
+    R.rule("C13.e", "the matcher and the binder agree on how many forms an ellipsis takes (sibling agreement): in "
+                    "match_list_pattern and in collect_bindings the count is (length of the use) + 1 − (number of patterns), "
+                    "where the number of patterns is taken after a trailing rest pattern was split off (split_last) and the "
+                    "length of the use after the tail of an improper use was cut off (`list[..len-1]`). nc: a count that "
+                    "includes the rest pattern binds one form too few to the ellipsis variable and shifts it into the rest "
+                    "variable — `(_ a ... . r)` used as `(m 1 2 3)` bound a to (1 2) and r to (3) — and underflows for short uses")
+    n = 0
+    for fn in [F.one(r"parser::expander::match_list_pattern$"), F.one(r"parser::expander::collect_bindings$")]:
+        maps = _backward(fn)
+        lens = {}
+        for i, b in fn.calls():
+            if re.search(r"\{impl \[T\]\}::len$", b["callee"]) and b.get("dest"):
+                lens[b["dest"].split(".")[0]] = _origins(fn, re.match(r"_\d+", b["args"][0]).group(0), maps, depth=20)
+        for b in fn.blocks:
+            for e in b["e"]:
+                if e[0] == "der" and len(e) >= 5 and e[3] == "PtrMetadata":
+                    lens[e[1]] = _origins(fn, lib.TOK.findall(lib._norm(e[2]))[0], maps, depth=20) if lib.TOK.findall(lib._norm(e[2])) else set()
+        split = {(b.get("dest") or "").split(".")[0] for i, b in fn.calls() if re.search(r"\{impl \[T\]\}::split_last$", b["callee"])}
+        cut = {(b.get("dest") or "").split(".")[0] for i, b in fn.calls()
+               if re.search(r"\{impl Index<I> for \[T\]\}::index$", b["callee"]) and any("RangeTo" in t and "Inclusive" not in t for t in b["targs"])}
+        subs = []
+        for b in fn.blocks:
+            if b["c"]:
+                continue
+            for e in b["e"]:
+                if e[0] == "binop" and e[1] in ("Sub", "SubWithOverflow", "SubUnchecked") and e[2] == "usize":
+                    subs.append((e[5], e[6], e[3]))
+            if b["k"] == "call" and re.search(r"\{impl usize\}::(saturating_sub|checked_sub|wrapping_sub)$", b["callee"]):
+                subs.append((b["args"][0], b["args"][1], b["line"]))
+        found = False
+        for a, bb, line in subs:
+            ta, tb = lib.TOK.findall(lib._norm(a)), lib.TOK.findall(lib._norm(bb))
+            if not ta or not tb:
+                continue
+            oa = {o.split(".")[0] for o in _origins(fn, ta[0], maps, depth=20)} | {ta[0]}
+            ob = {o.split(".")[0] for o in _origins(fn, tb[0], maps, depth=20)} | {tb[0]}
+            la = [l for l in lens if l in oa and "_2" in lens[l]]
+            lb = [l for l in lens if l in ob and "_1" in lens[l]]
+            if not la or not lb:
+                continue
+            found = True
+            n += 1
+            pat_ok = any({o.split(".")[0] for o in lens[l]} & split for l in lb)
+            use_ok = any({o.split(".")[0] for o in lens[l]} & cut for l in la)
+            R.inst("C13.e", "%s / ellipsis count = use without improper tail + 1 − patterns without rest" % fn.short(), pat_ok and use_ok,
+                   "%s computes the number of forms an ellipsis takes (line %s) from %s: the sibling function counts "
+                   "differently, so a use that matched is bound with the ellipsis variable one form short (or the subtraction "
+                   "underflows)" % (fn.short(), line, " and ".join(
+                       ([] if pat_ok else ["the whole pattern list, a trailing rest pattern included"]) +
+                       ([] if use_ok else ["the whole use, the tail of an improper list included"]))), fn.loc(line), sample=True)
+        if not found:
+            raise CheckError("anchor lost: %s no longer computes an ellipsis count from the two lengths" % fn.short())
+    R.floor("C13.e", "ellipsis count computations", n, 2)
+
+
+def unintroduce_rule(F, R):
+    from .c07 import _backward, _origins
+    R.rule("C13.u", "a template binder stays introduced for as long as an enclosing binder of the same spelling needs it: the "
+                    "renamer's set of introduced identifiers (RenameIdentifiersVisitor.introduced_identifiers) either only "
+                    "grows during a template walk, or — if a binding form takes its binders back when it ends — what it takes "
+                    "back is exactly what it put in: every record of a binder for later removal (a push / insert into the log "
+                    "the removal drains) is made on the edge where HashSet::insert returned true, or the removal itself is "
+                    "decided by a membership test made before the insertion. nc: an unconditional record removes the name "
+                    "although an enclosing form of the same template bound the same spelling; the references to the outer "
+                    "binder that follow keep the user's spelling while their binder is `##`-renamed")
+    fns = [f for f in F.find(r"rename_idents::\{impl (VisitorMutRef for )?RenameIdentifiersVisitor[^}]*\}::\w+$")]
+    if len(fns) < 5:
+        raise CheckError("anchor lost: RenameIdentifiersVisitor's methods")
+    SHRINK = r"\{impl HashSet<T,S,A>\}::(remove|clear|retain|drain|take|extract_if)$"
+    removals = []
+    for fn in fns:
+        for i, b in fn.calls():
+            if re.search(SHRINK, b["callee"]) and b["args"]:
+                al = lib.alias_sources(fn, re.match(r"_\d+", b["args"][0]).group(0), 6)
+                if any("introduced_identifiers" in x for x in al):
+                    removals.append((fn, i, b))
+    if not removals:
+        R.inst("C13.u", "RenameIdentifiersVisitor / the set of introduced binders only grows", True,
+               sample={"shrinking_calls": 0, "methods": len(fns)})
+        return
+    for fn, i, b in removals:
+        short = lib.split_path(b["callee"])[-1]
+        maps = _backward(fn)
+        raw = {}
+        for blk in fn.blocks:
+            for e in blk["e"]:
+                if e[0] == "mv":
+                    raw.setdefault(e[1].split(".")[0], []).append(e[2])
+        ok, why = False, "the identifiers it removes are not tied to an insertion that succeeded"
+        if short in ("remove", "take") and len(b["args"]) >= 2:
+            # (a) decided by a membership test: dominated by the false edge of contains / true edge of insert on the same set
+            dom = fn.dominators()
+            for g, gb in fn.calls():
+                if g in dom[i] and re.search(r"\{impl HashSet<T,S,A>\}::(contains|insert)$", gb["callee"]):
+                    br = lib.bool_branch(fn, g)
+                    if br and br[0] is not None:
+                        want = br[0] if gb["callee"].endswith("insert") else br[1]
+                        other = br[1] if gb["callee"].endswith("insert") else br[0]
+                        if want is not None and (want == i or i in fn.reachable_from([want], avoid={g})) and \
+                                not (other is not None and (other == i or i in fn.reachable_from([other], avoid={g}))):
+                            ok = True
+            # (b) the removed key comes out of a log field: every append to that field is on insert's true edge
+            if not ok:
+                fields = set()
+                for o in _origins(fn, re.match(r"_\d+", b["args"][1]).group(0), maps, depth=30):
+                    for s_ in raw.get(o.split(".")[0], ()):
+                        fields |= set(re.findall(r"\(\*_1\)\.([a-z_][a-z_0-9]*)", s_))
+                fields -= {"introduced_identifiers"}
+                if fields:
+                    appends, good = 0, 0
+                    for f2 in fns:
+                        dom2 = f2.dominators()
+                        for j, jb in f2.calls():
+                            if not re.search(r"::(push|push_back|insert|extend|extend_from_slice|append)$", jb["callee"]) or not jb["args"]:
+                                continue
+                            al = lib.alias_sources(f2, re.match(r"_\d+", jb["args"][0]).group(0), 6)
+                            if not any(any(("." + fld) in x for x in al) for fld in fields):
+                                continue
+                            appends += 1
+                            for g, gb in f2.calls():
+                                if g in dom2[j] and re.search(r"\{impl HashSet<T,S,A>\}::insert$", gb["callee"]):
+                                    br = lib.bool_branch(f2, g)
+                                    if br and br[0] is not None and (br[0] == j or j in f2.reachable_from([br[0]], avoid={g})) and \
+                                            not (br[1] is not None and (br[1] == j or j in f2.reachable_from([br[1]], avoid={g}))):
+                                        good += 1
+                                        break
+                    ok = appends > 0 and good == appends
+                    why = "%d of the %d places that record a binder in {%s} do so whether or not the insertion was new" % (
+                        appends - good, appends, ", ".join(sorted(fields)))
+        R.inst("C13.u", "RenameIdentifiersVisitor::%s / %s takes back only what this scope introduced" % (
+            lib.split_path(fn.name)[-1], short), ok,
+               "RenameIdentifiersVisitor::%s shrinks the set of introduced binders (HashSet::%s, line %s) and %s: leaving an "
+               "inner binding form un-introduces a spelling that an enclosing form of the same template also binds" % (
+                   lib.split_path(fn.name)[-1], short, b["line"], why), fn.loc(b["line"]), sample=True)
+
+
 def run(F, R, ctx):
     alignment_rule(F, R)
     descent_rule(F, R)
@@ -418,6 +638,9 @@ def run(F, R, ctx):
     expansion_rule(F, R)
     scope_rule(F, R)
     template_walk_rule(F, R)
+    whole_use_rule(F, R)
+    unintroduce_rule(F, R)
+    ellipsis_count_rule(F, R)
     R.note("C13: decided are pattern/form alignment, walker agreement, the binder-site treatment of the renamer, the "
            "construction order of a macro case, clean binding tables, scope-layer pairing and traversal completeness of the "
            "template walkers. NOT decided: hygiene proper — which binding each identifier of an expansion resolves to. The "
